@@ -80,6 +80,10 @@ func drawC07(t *rapid.T) C07Case {
 	}
 	c.Reads = drawReadSizes(t)
 	c.BufSrc = rapid.SampledFrom([]int{0, 0, 16, 4096}).Draw(t, "bufsrc")
+	if c.Pkg == "zlib" && rapid.IntRange(0, 2).Draw(t, "zdict") == 0 {
+		d := gen.Recipe{Segs: []gen.Seg{{Kind: "text", N: rapid.IntRange(1, 600).Draw(t, "dictlen"), Seed: 8}}}
+		c.Members[0].Dict = &d
+	}
 	if c.Pkg == "gzip" {
 		c.Single = rapid.IntRange(0, 2).Draw(t, "single") == 0
 		for i := range c.Members {
@@ -168,6 +172,10 @@ func checkC07(c C07Case) (labels []string, nontrivial bool, err error) {
 		return nil, false, err
 	}
 	z := applyContainerMut(good, c.Mut)
+	var zdict []byte
+	if c.Pkg == "zlib" {
+		zdict = recipeBytes(c.Members[0].Dict)
+	}
 	isTrunc := len(c.Mut) == 1 && c.Mut[0].Kind == "trunc"
 	// reference judgement of the corrupted input
 	// strict = compress/flate's DEFLATE rules (a still-valid input must read to EOF);
@@ -182,8 +190,8 @@ func checkC07(c C07Case) (labels []string, nontrivial bool, err error) {
 		pg := refinflate.ParseGzipOpt(z, !c.Single, true)
 		pverdict, refPayload = pg.Verdict, pg.Payload
 	} else {
-		verdict = refinflate.ParseZlib(z, nil).Verdict
-		pz := refinflate.ParseZlibOpt(z, nil, true)
+		verdict = refinflate.ParseZlib(z, zdict).Verdict
+		pz := refinflate.ParseZlibOpt(z, zdict, true)
 		pverdict, refPayload = pz.Verdict, pz.Payload
 	}
 	var src io.Reader = bytes.NewReader(z)
@@ -199,7 +207,7 @@ func checkC07(c C07Case) (labels []string, nontrivial bool, err error) {
 		}
 		r, openErr = gz, e
 	} else {
-		zr, e := fzlib.NewReader(src)
+		zr, e := fzlib.NewReaderDict(src, zdict)
 		r, openErr = zr, e
 	}
 	var out []byte
@@ -288,6 +296,11 @@ func checkC07(c C07Case) (labels []string, nontrivial bool, err error) {
 func TestC07(t *testing.T) {
 	rapid.Check(t, func(t *rapid.T) {
 		c := drawC07(t)
+		if c.Pkg == "zlib" && c.Members[0].Dict != nil && knownActive("std-dict-stored-first-block") &&
+			stdZlibDictBroken(c.Members[0].Level, recipeBytes(c.Members[0].Dict), c.Members[0].Data.Bytes(), c.Members[0].Ops) {
+			stats.Exclude("C07", "std-dict-stored-first-block")
+			c.Members[0].Dict = nil
+		}
 		done := begin("C07", c)
 		defer done()
 		labels, nt, err := checkC07(c)
